@@ -215,7 +215,7 @@ func c16(c *Ctx) {
 				continue
 			}
 			if _, node, _, ok := cmpOf(i.Cond); ok && typeName(node.Type()) == "itemNode" {
-				c.EnteredOnlyWhenExcept(b.Succs[1], "orphan-walk-ends-only-at-the-end-of-the-list", func(p *ssa.BasicBlock) bool { return p != b }, IsNil(func(v ssa.Value) bool { return v == node }))
+				c.EnteredOnlyWhenFrom(b.Succs[1], "orphan-walk-ends-only-at-the-end-of-the-list", b, IsNil(func(v ssa.Value) bool { return v == node }))
 				c.Expect(len(breakPreds(b)) == 0, i, fin, "orphan-walk-not-left-early", "the orphan walk is left early")
 			}
 		}
